@@ -42,6 +42,28 @@ class Inconclusive(Exception):
     """The deciding monitor could not be reached / harness cannot run."""
 
 
+ENV_VARIANT = os.environ.get("TVM_ENV_VARIANT", "")
+# third-party / interpreter modules whose own warnings are none of testtools' business
+_FOREIGN = r"(twisted|fixtures|pbr|zope|constantly|incremental|attr|attrs|hamcrest|pkg_resources|setuptools|_pytest|pytest)(\..*)?$"
+
+
+def apply_env_variant():
+    """The hostile process environment of the environment-variant child: warnings are errors (except those a
+    third-party package attributes to itself), the local time zone is far from UTC (and not a whole hour), and
+    the interpreter was started with -O (asserts stripped) by the parent."""
+    if not ENV_VARIANT:
+        return
+    import time as _time
+    import warnings
+    os.environ["TZ"] = "NST+3:30NDT+2:30,M3.2.0/2,M11.1.0/2"      # POSIX spelling: no tzdata needed
+    _time.tzset()
+    warnings.resetwarnings()
+    warnings.simplefilter("error")
+    warnings.filterwarnings("ignore", module=_FOREIGN)
+    warnings.filterwarnings("ignore", category=ResourceWarning)
+    warnings.filterwarnings("ignore", category=ImportWarning)
+
+
 def pin_repo():
     """Make ``import testtools`` load the working tree under REPO_ROOT."""
     sys.dont_write_bytecode = True
@@ -57,6 +79,7 @@ def pin_repo():
     where = os.path.abspath(testtools.__file__)
     if not where.startswith(REPO_ROOT + os.sep):
         raise Inconclusive(f"testtools imported from {where}, not {REPO_ROOT}")
+    apply_env_variant()
     return testtools
 
 
@@ -134,7 +157,8 @@ class Ctx:
     def scale(self, quick, thorough):
         """Number of random cases for this shard."""
         if self.quick:
-            return quick
+            # (quick is only ever sharded for the environment-variant child, which does a slice of everything)
+            return max(1, quick // self.nshards)
         return max(1, thorough // self.nshards)
 
     def mine(self):
@@ -207,6 +231,8 @@ class Ctx:
         rec = {"property": self.pid, "sub": sub, "what": what,
                "case": jsonable(case), "detail": jsonable(detail),
                "seed": self.seed, "tier": self.tier}
+        if ENV_VARIANT:
+            rec["environment"] = ENV_VARIANT       # observed in the environment-variant child: replayed there
         self.violations.append(rec)
 
     def check(self, cond, what, detail=None, mechanism=None, counter=None):
@@ -390,11 +416,47 @@ def main_check(pid, tier, seed, replay=None, jobs=None):
                 jobs or os.environ.get("TVM_JOBS", "14"))
             if mod_level_shards == 1:
                 ctx = run_single(pid, tier, seed)
+                run_env_variant(ctx, pid, tier, seed)
                 return ctx.finish()
             return run_sharded(pid, tier, seed, mod_level_shards)
         except Inconclusive as e:
             print(f"INCONCLUSIVE property={pid} reason={e}")
             return 2
+
+
+ENV_SLICE = 5
+
+
+def run_env_variant(parent, pid, tier, seed):
+    """One more pass over a slice (1/ENV_SLICE, own random stream) of the same workload in a child interpreter whose
+    process environment is hostile: `python -O`, warnings turned into errors, a local time zone 3.5 h off UTC.
+    The properties do not allow the behaviour to depend on any of these.  What the child observed is merged in."""
+    import tempfile
+    if os.environ.get("TVM_ENV_VARIANTS", "1") == "0" or ENV_VARIANT:
+        return
+    tmpdir = tempfile.mkdtemp(prefix="tvm-envvar-")
+    out = os.path.join(tmpdir, "env.json")
+    try:
+        env = dict(os.environ, TVM_ENV_VARIANT="O+warnings-as-errors+TZ")
+        env.pop("PYTHONOPTIMIZE", None)
+        p = subprocess.run([sys.executable, "-O", "-m", "tvm", "shard", pid, "--tier", tier, "--seed", str(seed),
+                            "--shard", str(seed % ENV_SLICE), "--nshards", str(ENV_SLICE), "--out", out],
+                           cwd=VERIF_ROOT, env=env, stdout=subprocess.PIPE, stderr=subprocess.STDOUT, text=True,
+                           timeout=float(os.environ.get("TVM_SHARD_TIMEOUT_S", "3000")))
+        if not os.path.exists(out):
+            parent.inconclusive.append(f"environment-variant child produced no result (rc={p.returncode}): {p.stdout[-400:]}")
+            return
+        with open(out) as f:
+            data = json.load(f)
+        before = parent.evaluations
+        parent.merge(data)
+        parent.notes["environment_variant"] = {"what": "python -O, warnings as errors (third-party ones excepted), TZ 3.5 h off UTC",
+                                               "evaluations": parent.evaluations - before}
+    except subprocess.TimeoutExpired:
+        parent.inconclusive.append("environment-variant child exceeded its time limit (watchdog)")
+    finally:
+        import shutil
+        shutil.rmtree(tmpdir, ignore_errors=True)
 
 
 def run_sharded(pid, tier, seed, nshards):
@@ -435,6 +497,7 @@ def run_sharded(pid, tier, seed, nshards):
     finally:
         import shutil
         shutil.rmtree(tmpdir, ignore_errors=True)
+    run_env_variant(parent, pid, "quick", seed)
     return parent.finish()
 
 
@@ -453,6 +516,12 @@ def main_shard(pid, tier, seed, shard, nshards, out):
 def do_replay(pid, path):
     with open(path) as f:
         rec = json.load(f)
+    if rec.get("environment") and not ENV_VARIANT:
+        # the violation was observed under `python -O`, warnings as errors, a shifted time zone: replay it there
+        env = dict(os.environ, TVM_ENV_VARIANT=rec["environment"])
+        env.pop("PYTHONOPTIMIZE", None)
+        return subprocess.run([sys.executable, "-O", "-m", "tvm", "check", pid, "--replay", path],
+                              cwd=VERIF_ROOT, env=env).returncode
     pin_repo()
     mod = load_check(pid)
     ctx = Ctx(mod, rec.get("tier", "quick"), rec.get("seed", 0), replaying=True)
